@@ -366,7 +366,7 @@ func c13Worker(w *W) {
 				w.Violate("C13:write-before-file-time", fmt.Sprintf("[%s] %s completed at %s but sits in %s", mode, rc.id, rc.end.Format("15:04:05.000"), f[0].file), cs)
 			}
 			seqPhase := false
-			if t, ok := seqFrom.Load().(time.Time); ok && mode == "stalledrotator" && rc.start.After(t.Add(interval)) {
+			if t, ok := seqFrom.Load().(time.Time); ok && mode == "stalledrotator" && rc.start.After(t.Add(50*time.Millisecond)) {
 				seqPhase = true // well after the stall: one writer, one write at a time
 			}
 			if mode == "sequential" || seqPhase {
